@@ -7,6 +7,7 @@ rounding arithmetic `FP f` alike.
 import DuneVerif.Model.C17
 
 set_option linter.unusedSectionVars false
+set_option linter.unusedSimpArgs false
 namespace DV.C17
 
 theorem IType.two_pow_bits {t : IType} (hb : 0 < t.bits) : (2 : Int) ^ t.bits = 2 * 2 ^ (t.bits - 1) := by
@@ -70,6 +71,26 @@ theorem IType.wrap_neg_one {t : IType} (h : t.signed = false) : t.wrap (0 - 1) =
 /-- the largest value plus one is 0 in an unsigned type -/
 theorem IType.wrap_pow {t : IType} (h : t.signed = false) : t.wrap (2 ^ t.bits - 1 + 1) = 0 := by
   simp [IType.wrap, h]
+
+/-- the smallest value of a narrow signed type minus one is its largest value, and back -/
+theorem IType.wrap_lo_pred {t : IType} (hs : t.signed = true) (hn : t.bits < 32) (hb : 0 < t.bits) :
+    t.wrap (-(2 ^ (t.bits - 1) : Int) - 1) = 2 ^ (t.bits - 1) - 1 := by
+  have h2 := IType.two_pow_bits hb
+  have hp : (0 : Int) < 2 ^ (t.bits - 1) := Int.pow_pos (by decide)
+  simp only [IType.wrap, hs, hn, if_true]
+  have h1 : (-(2 ^ (t.bits - 1) : Int) - 1 + 2 ^ (t.bits - 1)) % 2 ^ t.bits = 2 ^ t.bits - 1 := by
+    have : (-(2 ^ (t.bits - 1) : Int) - 1 + 2 ^ (t.bits - 1)) = -1 := by omega
+    rw [this]
+    have h3 : ((-1 : Int)) % 2 ^ t.bits = (-1 + 2 ^ t.bits) % 2 ^ t.bits := by rw [Int.add_emod_right]
+    rw [h3]; exact Int.emod_eq_of_lt (by omega) (by omega)
+  rw [h1]; omega
+
+theorem IType.wrap_hi_succ {t : IType} (hs : t.signed = true) (hn : t.bits < 32) (hb : 0 < t.bits) :
+    t.wrap (2 ^ (t.bits - 1) - 1 + 1) = -(2 ^ (t.bits - 1) : Int) := by
+  have h2 := IType.two_pow_bits hb
+  simp only [IType.wrap, hs, hn, if_true]
+  have : ((2 : Int) ^ (t.bits - 1) - 1 + 1 + 2 ^ (t.bits - 1)) = 2 ^ t.bits := by omega
+  rw [this, Int.emod_self]; omega
 
 section
 variable {K : Type} [Zero K] [Neg K] [Sub K] [Mul K] [LT K] [LE K] [DecidableLT K] [DecidableLE K] [IntCast K] [Add K]
@@ -233,6 +254,100 @@ theorem truncUpM_eq {t : IType} (s : Style) {tr : K → Int} {x : K} (e : K) (h 
 theorem truncM_eq {t : IType} (s : Style) (rs : RStyle) {tr : K → Int} {x : K} (e : K) (h : NoWrap t tr x) :
     truncM t s rs tr x e = trunc s (!t.signed) rs tr x e := by
   cases rs <;> simp only [truncM, trunc, truncDownM_eq s e h, truncUpM_eq s e h]
+
+theorem IType.fits_zero {t : IType} (hb : 0 < t.bits) : t.fits 0 = true := by
+  have hp : (0 : Int) < 2 ^ (t.bits - 1) := Int.pow_pos (by decide)
+  have hq : (0 : Int) < 2 ^ t.bits := Int.pow_pos (by decide)
+  by_cases hs : t.signed = true
+  · simp [IType.fits, IType.lo, IType.hi, hs]; omega
+  · simp [IType.fits, IType.lo, IType.hi, hs]; omega
+
+theorem IType.not_fits_succ {t : IType} {a b : Int} (ha : t.fits a = true) (hab : a ≤ b) (hb : t.fits b = false) (c : Int)
+    (hbc : b ≤ c) : t.fits c = false := by
+  simp only [IType.fits, Bool.and_eq_true, decide_eq_true_eq] at ha
+  rw [Bool.eq_false_iff] at hb ⊢
+  intro hc
+  apply hb
+  simp only [IType.fits, Bool.and_eq_true, decide_eq_true_eq] at hc ⊢
+  omega
+
+/-- **`trunc` where `lower` is not decremented** (`T(I(val)) ≤ val`: every non-negative argument — the upper end of the
+    range of the type included): if `I(val)` and the mathematical (documented) result are values of the target type, that
+    result is returned.  `ha`: the expression `lower+1` does not wrap — every narrow type (integral promotion), and the wide
+    ones when `I(val)+1` is a value of the type. -/
+theorem truncM_of_fits_nodec {t : IType} (hb : 0 < t.bits) (s : Style) (rs : RStyle) {tr : K → Int} {x : K} (e : K)
+    (hnd : ¬ ((tr x : Int) : K) > x) (ha : t.arith (tr x + 1) = tr x + 1) (h0 : t.fits (tr x) = true)
+    (hD : t.fits (trunc s (!t.signed) rs tr x e) = true) :
+    truncM t s rs tr x e = trunc s (!t.signed) rs tr x e := by
+  have hdown : t.fits (truncDown s (!t.signed) tr x e) = true →
+      truncDownM t s tr x e = truncDown s (!t.signed) tr x e := by
+    intro hf
+    unfold truncDown at hf
+    unfold truncDownM truncDown
+    simp only [hnd, if_false, decide_false, Bool.false_and, Bool.false_eq_true, ha] at hf ⊢
+    split
+    · rfl
+    · rename_i hg
+      simp only [hg, if_false] at hf
+      split
+      · rfl
+      · rename_i hs
+        simp only [hs, if_false] at hf
+        split
+        · rename_i hq
+          simp only [hq, if_true] at hf
+          exact IType.wrap_of_fits hb _ hf
+        · rfl
+  have hup : t.fits (truncUp s (!t.signed) tr x e) = true →
+      truncUpM t s tr x e = truncUp s (!t.signed) tr x e := by
+    intro hf
+    cases hfd : t.fits (truncDown s (!t.signed) tr x e)
+    · -- the downward result is not a value of the type: it is I(val)+1, and the upward one is at least that
+      exfalso
+      have hmem := truncDown_mem s (!t.signed) tr x e
+      have hlow : lowerOf tr x = tr x := by unfold lowerOf; simp only [hnd, if_false]
+      rw [hlow] at hmem
+      have hd1 : truncDown s (!t.signed) tr x e = tr x + 1 := by
+        rcases hmem with h | h | h
+        · rw [h, IType.fits_zero hb] at hfd; exact Bool.noConfusion hfd
+        · rw [h, h0] at hfd; exact Bool.noConfusion hfd
+        · exact h
+      rw [hd1] at hfd
+      have hnf : t.fits (truncUp s (!t.signed) tr x e) = false := by
+        unfold truncUp
+        simp only [hd1]
+        split
+        · exact IType.not_fits_succ h0 (by omega) hfd _ (by omega)
+        · exact hfd
+      rw [hnf] at hf; exact Bool.noConfusion hf
+    · unfold truncUpM truncUp
+      rw [hdown hfd]
+      unfold truncUp at hf
+      by_cases hn : neS s ((truncDown s (!t.signed) tr x e : Int) : K) x e = true
+      · simp only [hn, if_true] at hf ⊢
+        exact IType.wrap_of_fits hb _ hf
+      · simp only [hn, Bool.false_eq_true, if_false]
+  cases rs
+  · simp only [truncM, trunc] at hD ⊢
+    split
+    · rename_i h; simp only [h, if_true] at hD; exact hdown hD
+    · rename_i h; simp only [h, if_false] at hD; exact hup hD
+  · simp only [truncM, trunc] at hD ⊢
+    split
+    · rename_i h; simp only [h, if_true] at hD; exact hup hD
+    · rename_i h; simp only [h, if_false] at hD; exact hdown hD
+  · exact hdown hD
+  · exact hup hD
+
+/-- **`trunc` where `I(val)` lies above `val` and is equal to it within epsilon** (the lower end of the range of a narrow
+    signed type included): the downward truncation returns `I(val)` — before any decrement
+    (fixes/C17_trunc_range_end.patch), so nothing wraps around -/
+theorem truncDownM_snap_conversion {t : IType} (s : Style) (tr : K → Int) (x e : K)
+    (hz : (!t.signed && eqS s x ((0 : Int) : K) e) = false)
+    (hg : ((tr x : Int) : K) > x) (hE : eqS s ((tr x : Int) : K) x e = true) :
+    truncDownM t s tr x e = tr x := by
+  unfold truncDownM
+  simp only [hz, Bool.false_eq_true, if_false, hg, decide_true, Bool.true_and, hE, if_true]
 
 end
 
